@@ -53,6 +53,10 @@ def gen(rng: Any, prop: str, tier: str) -> dict[str, Any]:
     n_ops = rng.randint(8, 40)
     g = Gen(rng, Model(), vary_spelling=rng.random() < 0.7)
     sids = [f"s{i}" for i in range(k)]
+    # a quarter of the histories name tables and views like the schemas and databases around them
+    collide = rng.random() < 0.25
+    g.tnames = ["T1", rng.choice(SCHEMAS)] if collide else list(TABLES)  # type: ignore[attr-defined]
+    g.vnames = [rng.choice(["V1", "DB1"]), "S2" if g.tnames[1] == "S1" else "S1"] if collide else list(VIEWS)  # type: ignore[attr-defined]
     # connects: first ones up front, with/without database/schema
     for sid in sids:
         _connect(g, rng, sid)
@@ -85,7 +89,7 @@ def _one(g: Gen, rng: Any, sid: str, hz: dict[str, bool]) -> None:
         tgt = g.pick_target_schema(sid)
         if tgt is None:
             return
-        name = rng.choice(TABLES)
+        name = rng.choice(g.tnames)
         ref = g.qualify(sid, (tgt[0], tgt[1], name))
         g.exec(sid, {"t": "create_table", "ref": ref, "cols": [["A", "INT"], ["B", "VARCHAR(20)"]],
                      "ine": rng.random() < 0.15, "or_replace": rng.random() < 0.1})
@@ -107,7 +111,7 @@ def _one(g: Gen, rng: Any, sid: str, hz: dict[str, bool]) -> None:
         tgt = g.pick_target_schema(sid)
         if tgt is None:
             return
-        g.exec(sid, {"t": "ctas", "ref": g.qualify(sid, (tgt[0], tgt[1], rng.choice(TABLES))), "src": g.qualify(sid, src, 0.2 if hz["second_table_needs_context"] else 0.0)})
+        g.exec(sid, {"t": "ctas", "ref": g.qualify(sid, (tgt[0], tgt[1], rng.choice(g.tnames))), "src": g.qualify(sid, src, 0.2 if hz["second_table_needs_context"] else 0.0)})
     elif kind == "create_schema":
         d = rng.choice(sorted(m.dbs) or DBS)
         name = rng.choice(SCHEMAS)
@@ -148,7 +152,7 @@ def _one(g: Gen, rng: Any, sid: str, hz: dict[str, bool]) -> None:
         tgt = g.pick_target_schema(sid)
         if tgt is None:
             return
-        g.exec(sid, {"t": "create_view", "ref": g.qualify(sid, (tgt[0], tgt[1], rng.choice(VIEWS))), "src": [src[0], src[1], src[2]]})
+        g.exec(sid, {"t": "create_view", "ref": g.qualify(sid, (tgt[0], tgt[1], rng.choice(g.vnames))), "src": [src[0], src[1], src[2]]})
     elif kind == "select_view" and g.all_views():
         g.exec(sid, {"t": "select", "ref": g.qualify(sid, rng.choice(g.all_views()))})
     elif kind == "drop_view" and g.all_views():
